@@ -326,6 +326,9 @@ func drive(args []string) int {
 	}
 
 	// evidence
+	if samples == nil {
+		samples = []any{}
+	}
 	if rf == nil {
 		cov := map[string]any{
 			"evaluations":         evals,
